@@ -135,6 +135,9 @@ func g04ReturnedErr(f *File, fd *ast.FuncDecl) (errName, cond string, err error)
 			if rs, ok := s.(*ast.ReturnStmt); ok && len(rs.Results) == 1 {
 				if id, ok := rs.Results[0].(*ast.Ident); ok && strings.HasPrefix(id.Name, "Err") {
 					errName, cond = id.Name, f.Src(is.Cond)
+					if is.Init != nil {
+						cond = f.Src(is.Init) + "; " + cond
+					}
 				}
 			}
 		}
@@ -375,12 +378,35 @@ func genG04(repo string, w *Out) error {
 	if err != nil {
 		return err
 	}
-	if len(il.Body.List) == 0 || hp.Src(il.Body.List[0]) != "host = strings.ToLower(host)" {
-		return fmt.Errorf("isLocalhost: first statement is not host = strings.ToLower(host)")
+	if len(il.Body.List) == 0 {
+		return fmt.Errorf("isLocalhost: empty body")
 	}
+	mapsIDNA := false
+	switch hp.Src(il.Body.List[0]) {
+	case "host = strings.ToLower(host)":
+	case "host = strings.ToLower(asciiHostname(host))":
+		mapsIDNA = true
+	default:
+		return fmt.Errorf("isLocalhost: first statement %q is not a shape the model knows", hp.Src(il.Body.List[0]))
+	}
+	w.DefBool("localhost_maps_idna", mapsIDNA)
 	ilc := g04IfConds(hp, il.Body)
 	if len(ilc) != 2 || ilc[0] != "slices.Contains(hp.localhost, host)" {
 		return fmt.Errorf("isLocalhost: conditions %q", ilc)
+	}
+	// a zone cut off between the name lookup and net.ParseIP?
+	stripsZone := false
+	for i, st := range il.Body.List {
+		if hp.Src(st) == `host, _, _ = strings.Cut(host, "%")` {
+			if i != 2 {
+				return fmt.Errorf("isLocalhost: zone is cut off at statement %d, expected between the name lookup and net.ParseIP", i)
+			}
+			stripsZone = true
+		}
+	}
+	w.DefBool("localhost_strips_zone", stripsZone)
+	if want := 4 + map[bool]int{false: 0, true: 1}[stripsZone]; len(il.Body.List) != want {
+		return fmt.Errorf("isLocalhost: %d statements, expected %d", len(il.Body.List), want)
 	}
 	switch ilc[1] {
 	case "ip := net.ParseIP(host); ip != nil && ip.IsLoopback()":
@@ -390,6 +416,15 @@ func genG04(repo string, w *Out) error {
 		w.DefBool("localhost_checks_unspecified", true)
 	default:
 		return fmt.Errorf("isLocalhost: IP condition %q is not a shape the model knows", ilc[1])
+	}
+	if mapsIDNA {
+		ah, err := hp.Func("asciiHostname")
+		if err != nil {
+			return err
+		}
+		if s := hp.Src(ah.Body); s != "{ for i := 0; i < len(host); i++ { if host[i] >= utf8.RuneSelf { if a, err := idna.Lookup.ToASCII(host); err == nil { return a } break } } return host }" {
+			return fmt.Errorf("asciiHostname: body is not the shape the model knows: %s", s)
+		}
 	}
 	if s := hp.Src(il.Body); !strings.HasSuffix(s, "return false }") {
 		return fmt.Errorf("isLocalhost: does not end in return false")
@@ -460,7 +495,7 @@ func genG04(repo string, w *Out) error {
 		{"HTTPProxy.allowWithinTimeFrame", "timeframe", "!middleware.TimeFrameAllows(hp.config.AllowTimeFrame)"},
 		{"HTTPProxy.basicAuth", "basicauth", "!ba.AuthenticatedRequest(req, user, pass)"},
 		{"HTTPProxy.denyLocalhost", "localhost", "hp.isLocalhost(req.URL.Hostname())"},
-		{"HTTPProxy.denyDomains", "denydomains", "r.Match(req.URL.Hostname())"},
+		{"HTTPProxy.denyDomains", "denydomains", "r.Match(req.URL.Hostname())|h := req.URL.Hostname(); r.Match(h) || r.Match(asciiHostname(h))"},
 	} {
 		fd, err := hp.Func(m.fn)
 		if err != nil {
@@ -470,7 +505,15 @@ func genG04(repo string, w *Out) error {
 		if err != nil {
 			return err
 		}
-		if cond != m.cond {
+		alts := strings.Split(m.cond, "|h := ")
+		switch {
+		case cond == alts[0]:
+			if m.key == "denydomains" {
+				w.DefBool("deny_matches_ascii_form", false)
+			}
+		case len(alts) == 2 && cond == "h := "+alts[1]:
+			w.DefBool("deny_matches_ascii_form", true)
+		default:
 			return fmt.Errorf("%s: guard is %q, expected %q", m.fn, cond, m.cond)
 		}
 		w.DefStr("errname_"+m.key, en)
